@@ -63,6 +63,8 @@ def pack_int(afi: AFI, integer: int) -> bytes:
     return b''.join(bytes([(integer >> (offset * 8)) & 0xFF]) for offset in range(IP.length(afi) - 1, -1, -1))
 
 
+SPLIT_MAX_BITS = 16  # a `split` creates at most 65536 routes
+
 class ParseStaticRoute(Section):
     # Schema definition for static route attributes
     schema = Container(
@@ -320,7 +322,12 @@ class ParseStaticRoute(Section):
         3. Enter settings mode so nlri-set commands populate settings
         4. Create NLRI in post() when all values are collected
         """
-        ipmask = prefix(self.parser.tokeniser)
+        try:
+            ipmask = prefix(self.parser.tokeniser)
+        except (ValueError, OSError) as exc:
+            # pre() runs outside the try of Section.parse: `route 1.2.3.256/32 { ... }` left API.api_route as OSError
+            # (what 628d987 repaired for the one-line form), `route 10.0.0.1/24 { ... }` as ValueError
+            return self.error.set(str(exc))
         settings = INETSettings()
         settings.cidr = CIDR.create_cidr(ipmask.pack_ip(), ipmask.mask)
         settings.afi = IP.toafi(ipmask.top())
@@ -364,7 +371,10 @@ class ParseStaticRoute(Section):
             self.scope.append_route(route)
 
         # Process routes (from either nested syntax or flat syntax)
-        self._split()
+        try:
+            self._split()
+        except ValueError as exc:
+            return self.error.set(str(exc))
         routes = self.scope.pop_routes()
         if routes:
             for route in routes:
@@ -467,6 +477,11 @@ class ParseStaticRoute(Section):
         # Use Any to access dynamically since the actual type depends on AFI/SAFI
         nlri: Any = last.nlri
 
+        if not hasattr(nlri, 'cidr'):
+            # `attributes med 5 split /24` (no prefix at all): nothing to split, it was answered with AttributeError
+            yield last
+            return
+
         # ignore if the request is for an aggregate, or the same size
         mask = nlri.cidr.mask
         # INTERNAL_SPLIT stores a Split(int) subclass - cast to int for type safety
@@ -474,6 +489,11 @@ class ParseStaticRoute(Section):
         if mask >= cut:
             yield last
             return
+
+        if cut - mask > SPLIT_MAX_BITS:
+            # `0.0.0.0/0 split /32` built 2^32 routes before anything was answered: the reactor stopped serving its
+            # peers and the memory ran out
+            raise ValueError(f'split /{cut} of a /{mask} would create {pow(2, cut - mask)} routes (at most {pow(2, SPLIT_MAX_BITS)})')
 
         # calculate the number of IP in the /<size> of the new route
         increment = pow(2, nlri.afi.mask() - cut)
